@@ -97,9 +97,10 @@ def build(repo):
     u.contract(KF, '''        ensures
             // @clause key-is-method-path-endpoint @props C12
             clone_is_copy::<Endpoint>() && path_valid(request.message) ==> key_for(*request, r),
-            // a path that is not text at all is keyed like the empty path (outside C12's quantifier: recorded in DESIGN.md)
-            clone_is_copy::<Endpoint>() && !path_valid(request.message) ==> r.request_type_ord == u8_of_class(MessageClass::Request(method_of(request.message.header.code)))
-                && r.path@.len() == 0 && r.requester == request.source''', props=PROPS)
+            // a path that is not text at all is outside C12's quantifier (today it is keyed like the empty
+            // path - recorded in DESIGN.md); method and endpoint still have to be in the key
+            clone_is_copy::<Endpoint>() ==> r.request_type_ord == u8_of_class(MessageClass::Request(method_of(request.message.header.code)))
+                && r.requester == request.source''', props=PROPS)
     u.probe('lemma_keys_differ')
     u.probe('lemma_method_byte_injective')
     u.finish(common.HEAD)
